@@ -154,11 +154,13 @@ def _lg_case(rng, tier, i, specs_p, specs_e, models):
             "prior_geom": rng.random() < 0.4,
             "compute_cov": rng.random() < 0.9,
             "build": rng.choice(["set_data", "set_data", "kwargs", "likelihood"]),
-            "respec": rng.choice(["none"] * 6 + ["mean", "matrix", "swap_prior"]),
-            "pre_map": rng.random() < 0.3,
+            "respec": rng.choice(["none"] * 5 + ["mean", "matrix", "matrix", "noise", "swap_prior"]),
+            "pre_map": False,
             "via": "UQ" if (i % 53 == 7 and dgeom in ("default", "cont1d") and n <= 12) else "sample_posterior",
             "disp": rng.random() < 0.2,
             "x0": rng.choice(["default", "default", "random"])}
+    # history: estimates / draws computed before a re-specification must not leak into the ones computed after it
+    case["pre_map"] = rng.random() < (0.6 if case["respec"] != "none" else 0.2)
     return case
 
 def cases(tier, seed):
@@ -565,9 +567,15 @@ def run_lg(case, ctx):
         do_compute_cov()
     mu, Cx, Ce = B.mu, B.Cx, B.Ce
     # history: an estimate computed before the prior is re-specified must not leak into the next one
+    direct_expected = gaussian_prior and not case["model"].startswith("Model")
     if case["pre_map"]:
         _call(BP.MAP, disp=False)
         ctx.count("history_pre_map_calls")
+        if direct_expected:
+            k, v = _call(BP.sample_posterior, 2)
+            if k == "crashed":
+                raise v
+            ctx.count("history_pre_sample_calls")
     if case["respec"] != "none" and gaussian_prior:
         form = case["prior"]["form"]
         if case["respec"] == "mean":
@@ -578,6 +586,17 @@ def run_lg(case, ctx):
             k, v = _call(setattr, BP.prior, form, val)
             if k == "refused":
                 ctx.refused("respecify", v); Cx = B.Cx
+            elif k == "crashed":
+                raise v
+            elif case["compute_cov"] and rs.uniform() < 0.5:
+                do_compute_cov()
+        elif case["respec"] == "noise":
+            nform = case["noise"]["form"]
+            val, Ce = R.make_spec(rs, m, nform, "full" if (m == 1 and case["noise"]["shape"] == "sparse") else case["noise"]["shape"],
+                                  case["noise"]["scale"] * 3.0)
+            k, v = _call(setattr, BP.likelihood.distribution, nform, val)
+            if k == "refused":
+                ctx.refused("respecify", v); Ce = B.Ce
             elif k == "crashed":
                 raise v
             elif case["compute_cov"] and rs.uniform() < 0.5:
